@@ -679,7 +679,7 @@ class Visitor(ast.NodeVisitor):
         result = None  # type: Optional[Any]
         placeholder_observed = False
 
-        for value_node in node.values:
+        for i, value_node in enumerate(node.values):
             if placeholder_observed and not _is_plain_lookup(value_node):
                 # (Inside a comprehension, see below.) Python might have skipped this operand; we re-compute it for
                 # the report only if that can not run any user code.
@@ -703,6 +703,12 @@ class Visitor(ast.NodeVisitor):
                 break
 
             result = value
+
+            # Python does not test the truthiness of the last operand: it is the result whatever it is.
+            # (This matters for the values with no boolyness such as numpy arrays.)
+            if i == len(node.values) - 1:
+                break
+
             if isinstance(node.op, ast.And) and not value:
                 break
 
